@@ -69,11 +69,19 @@ class World:
     def call(self, n):
         target, kind = self.t[n]
         name = (self.prog.op1 if n == 1 else self.prog.op2)
+        if name == "filename_set":
+            target.filename = target.filename + "_moved"
+            return None
+        if name == "iterate_partially":
+            it = iter(target)
+            first = next(it, None)
+            self._kept_iterators = getattr(self, "_kept_iterators", []) + [it]  # keep it alive
+            return first
         container = name.endswith("+c")  # "+c": the operation's value argument is a container
         name = name[:-2] if container else name
         op = op_by_name(kind, name)
         v = {"k": 10 + n} if container else 10 + n
-        a = ops.A(v=v, w=v + 10, i=0, j=1)
+        a = ops.A(v=v, w=30 + n, i=0, j=1)
         return op.fn(target, a)  # converted to plain data only after both threads are done
 
     def enter_ctx(self):
@@ -211,6 +219,8 @@ def decide_pair(prog, max_replays=10, variants=False, check_deadlock=True):
         t1 = trace(prog, 1, after_other=a1)
         t2 = trace(prog, 2, after_other=a2)
         out["events"] += len(t1) + len(t2)
+        if not t1 or not t2:
+            raise RuntimeError(f"vacuous program: an operation produced no library events ({len(t1)}, {len(t2)})")
         if check_deadlock:
             v, wit, q, s = order_smt.deadlock_query(t1, t2)
             out["queries"] += q
